@@ -1,11 +1,14 @@
 use crate::Ctx;
+pub mod c01;
 pub mod c07;
+pub mod req;
 pub mod c14;
 pub mod c16;
 pub mod c20;
 
 pub fn run(ctx: &mut Ctx, suite: &str) {
     match suite {
+        "c01" => c01::run(ctx),
         "c07" => c07::run(ctx),
         "c14" => c14::run(ctx),
         "c16" => c16::run(ctx),
@@ -20,6 +23,7 @@ pub fn run(ctx: &mut Ctx, suite: &str) {
 /// Re-runs one case (given by its suite tag and input fields) against the implementation.
 pub fn replay(ctx: &mut Ctx, tag: &str, args: &[&str]) {
     match tag {
+        "c01" | "c02" | "c03" | "c15r" | "c14r" => req::case(ctx, tag, args[0], args[1], args[2], args[3], args[4], args[5]),
         "c07" => c07::case(ctx, args[0], args[1], args[2], args[3], args[4]),
         "c14" => c14::case_ops(ctx, args[0], args[1]),
         "c14a" => c14::case_ascii(ctx, args[0], args[1]),
